@@ -64,7 +64,7 @@ class World:
                     out[...] = ...
                 else:
                     k = am.g_value(pr["key"])
-                    out[d42.optional(k) if pr["opt"] else k] = self.pool[pr["ref"] - 1]
+                    out[d42.optional(k) if pr["opt"] else k] = d42.schema.int if pr["ref"] == -1 else self.pool[pr["ref"] - 1]
             return out
         return am.g_value(spec["v"])
 
